@@ -1155,8 +1155,8 @@ func genMvccSession(rng *rand.Rand, st *Stats) []string {
 		if n < 0 {
 			n = 0
 		}
-		if inmem && n >= thr {
-			n = thr - 1 // len == threshold in memory mode: known finding F13 (separate corpus case)
+		if inmem && n > thr && rng.Intn(4) != 0 {
+			n = thr // memory mode rejects values above the threshold; keep most of them acceptable
 		}
 		v := make([]byte, n)
 		rng.Read(v)
